@@ -282,18 +282,31 @@ def writeback(ctx, R):
                 "write-back is `%s.currentPos = %s`: not rho(position()) of the same variable with rho losing < 1 on a difference (int()/trunc() move a negative and a positive neighbour toward each other; any clamp or offset absorbs infeasible layers as overlap)" % (w["target"], show(w["value"], 160)))
         # coverage: iterates the variables given to the solver (optionally filtered on .node)
         it = w["it"]
-        src = it.it if isinstance(it, MapV) else it
         solver_vars = M.solver_args[0][0] if M.solver_args and M.solver_args[0] else None
-        cov = solver_vars is not None and (src is solver_vars or key(src) == key(solver_vars))
-        if isinstance(it, MapV):
-            nd = key(M.ev.getattr(it.el, "node", M.state))
-            cov = cov and key(it.body) == key(it.el) and all(c in ("truth(%s)" % nd, nd, "cmp(isnot, %s, None)" % nd) for c in it.conds)
+        direct = solver_vars is not None and (it is solver_vars or key(it) == key(solver_vars))
+        if direct:
+            cov = True  # iterates the solver's variable list itself (a guard on .node inside the loop is the element's own)
+        else:
+            src = it.it if isinstance(it, MapV) else it
+            cov = solver_vars is not None and (src is solver_vars or key(src) == key(solver_vars))
+            if isinstance(it, MapV):
+                nd = key(M.ev.getattr(it.el, "node", M.state))
+                cov = cov and key(it.body) == key(it.el) and all(c in ("truth(%s)" % nd, nd, "cmp(isnot, %s, None)" % nd) for c in it.conds)
         R.check(cov, "C01.WRITEBACK", tag + "|coverage", where(f, w["node"]), "every solved variable that carries a node is written back", "write-back iterates %s: not all node-carrying variables handed to the solver" % show(it, 160))
         # nothing after write-back touches currentPos / no return of something else
         R.check(key(M.ret) in ("nodes", "None") or key(M.ret).startswith("sorted(nodes"), "C01.WRITEBACK", tag + "|return", where(f), "returns the layer", "returns %s" % show(M.ret), nontrivial=False)
 
 
 CUR_WRITERS = {"node.Node.__init__", "node.Node.createStub", "node.Node.clone", "node.Node.moveToIdealPosition", qp.RO}
+
+
+def _cur_writer_ok(g):
+    """Known writers of Node.currentPos: the four Node methods and the write-back inside removeOverlap.py
+    (any function of that module, so that extracting a helper there is not an alarm)."""
+    t = g
+    while t.parent is not None:
+        t = t.parent
+    return t.qual in CUR_WRITERS or t.module.name == "removeOverlap"
 
 
 @rule("C01.LASTWRITER")
@@ -306,17 +319,21 @@ def lastwriter(ctx, R):
             if isinstance(nn, ast.Attribute) and nn.attr == "currentPos" and isinstance(nn.ctx, ast.Store):
                 if P.enclosing_func(nn) is g:
                     writers.add(g.qual)
-                    R.check(g.qual in CUR_WRITERS, "C01.LASTWRITER", "writer of .currentPos: %s" % g.qual, where(g, nn), "known writer of Node.currentPos",
+                    R.check(_cur_writer_ok(g), "C01.LASTWRITER", "writer of .currentPos: %s" % g.qual, where(g, nn), "known writer of Node.currentPos",
                             "`%s` writes Node.currentPos: a position written outside removeOverlap's write-back can undo the separation the solver established" % g.qual)
             if isinstance(nn, ast.Call) and isinstance(nn.func, ast.Name) and nn.func.id == "setattr" and len(nn.args) >= 2 and isinstance(nn.args[1], ast.Constant) and nn.args[1].value == "currentPos":
                 R.bad("C01.LASTWRITER", "setattr currentPos in %s" % g.qual, where(g, nn), "setattr(..., 'currentPos', ...) outside the known writers")
-    R.check(len(writers & CUR_WRITERS) >= 5, "C01.LASTWRITER.inventory", "writers found: %d" % len(writers), "", "", "expected the five known writers, found %s" % sorted(writers), nontrivial=False)
+    R.check(len(writers) >= 5, "C01.LASTWRITER.inventory", "writers found: %d" % len(writers), "", "", "expected the five known writers, found %s" % sorted(writers), nontrivial=False)
     # no writer other than removeOverlap is reachable after a layer's removeOverlap call in Force.compute,
     # nor between force.compute() and the emitters in Timeline.compute / export
-    bad_writers = writers - {qp.RO}
+    bad_writers = {w for w in writers if P.funcs[w].module.name != "removeOverlap"}
+
+    def reaches(c, target):
+        return any(target in cg.reachable([g.qual]) for g, _ in ctx.types.resolve(c))
+
     for fq, anchor_pred, what in (
-        ("force.Force.compute", lambda c: ntext(c.func).endswith("removeOverlap"), "after the layer's removeOverlap()"),
-        ("timeline.Timeline.compute", lambda c: isinstance(c.func, ast.Attribute) and c.func.attr == "compute", "after force.compute()"),
+        ("force.Force.compute", lambda c: reaches(c, qp.RO), "after the layer's removeOverlap()"),
+        ("timeline.Timeline.compute", lambda c: reaches(c, "force.Force.compute"), "after force.compute()"),
     ):
         f = P.func(fq)
         R.saw(f)
